@@ -80,6 +80,27 @@ pub fn run_case(a: &Args, tag: &'static str, idx: u64, handle_dim: bool, acc: &m
     let mut prefix = vec![];
     let nprefix = rng.range(0, 6);
     let probe = universe.paths.clone();
+    // directed pre-state (one case in four on overlays): a lower-layer entry is removed through the overlay first,
+    // so that the operation under test meets the overlay's deletion bookkeeping for that name
+    let mut recreate_at: Option<String> = None;
+    if let Some(pl) = &plan {
+        if rng.chance(1, 4) && !pl.lower_paths.is_empty() {
+            let cands: Vec<&String> = pl.lower_paths.iter().collect();
+            let l = (*rng.pick(&cands)).clone();
+            let tree = snapshot(&planning.root, &probe, 4096).tree();
+            let rm = match tree.class(&l) {
+                crate::model::Class::File => Some(Op::RemoveFile(l.clone())),
+                c if c.is_dir() => Some(Op::RemoveDirAll(l.clone())),
+                _ => None,
+            };
+            if let Some(rm) = rm {
+                if !crate::engine::avoid_match(&a.avoid, &rm, &tree, &cfg) && exec(&planning.root, &rm).is_ok() {
+                    prefix.push(rm);
+                    recreate_at = Some(l);
+                }
+            }
+        }
+    }
     for _ in 0..nprefix {
         let tree = snapshot(&planning.root, &probe, 4096).tree();
         let op = gen_op(&mut rng, &typed, &universe, &tree);
@@ -96,6 +117,19 @@ pub fn run_case(a: &Args, tag: &'static str, idx: u64, handle_dim: bool, acc: &m
         ("create_dir", 3), ("create_file", 3), ("append_file", 3), ("remove_file", 3), ("remove_dir", 3), ("open_read", 2), ("read_dir", 2), ("metadata", 2), ("exists", 2), ("is_file", 2), ("is_dir", 2),
     ];
     let mut op = gen_op(&mut rng, &d, &universe, &pre_tree);
+    if let Some(l) = recreate_at.filter(|l| pre_tree.class(l) == crate::model::Class::Absent) {
+        let files: Vec<&String> = universe.paths.iter().filter(|p| pre_tree.class(p) == crate::model::Class::File).collect();
+        let dirs: Vec<&String> = universe.paths.iter().filter(|p| pre_tree.class(p).is_dir() && !crate::model::is_under(&l, p) && **p != l).collect();
+        op = match rng.below(6) {
+            0 | 1 => Op::CreateFile(l.clone(), vec![crate::ops::WStep::Write(b"new".to_vec())]),
+            2 => Op::CreateDir(l.clone()),
+            3 if !files.is_empty() => Op::CopyFile((*rng.pick(&files)).clone(), l.clone()),
+            4 if !files.is_empty() => Op::MoveFile((*rng.pick(&files)).clone(), l.clone()),
+            5 if !dirs.is_empty() => Op::CopyDir((*rng.pick(&dirs)).clone(), l.clone()),
+            _ => Op::CreateDirAll(l.clone()),
+        };
+        acc.count("cases_recreating_a_removed_lower_entry", 1);
+    }
     for _ in 0..20 {
         if !crate::engine::avoid_match(&a.avoid, &op, &pre_tree, &cfg) {
             break;
